@@ -78,7 +78,7 @@ func runSteps(t vkit.TB, steps []Cell, whole Case) (sums []string, classes []str
 			return sums, classes, false
 		}
 		c := steps[i]
-		vkit.Case(res.class, res.nontriv, fmt.Sprintf("%s|%s|%s|%s|%v|%v|%s|%s|%s|%s|%v|%s", c.Cmd, c.Identity, c.Claim, c.Target, c.AsResp, c.Pending, c.BodyTarget, c.When, c.MState, c.PrimeBy, c.FixedID, c.CodeState))
+		vkit.Case(res.class, res.nontriv, fmt.Sprintf("%s|%s|%s|%s|%v|%v|%s|%s|%s|%s|%v|%s", c.Cmd, c.Identity, c.Claim, c.Target, c.AsResp, c.Pending, c.BodyTarget, c.When, c.MState, c.PrimeBy, c.FixedID, c.CodeState)+"|"+c.Again)
 		if res.nontriv {
 			vkit.Sample(res.class, map[string]any{"cell": c, "outcome": trunc(res.summary, 300)})
 		}
@@ -149,12 +149,32 @@ func cellsOf(sp *spec, id string, draw int) []Cell {
 	if sp.Object == "mapping" || sp.Object == "traffic" || sp.Type == packet.DNSResolve || sp.Type == packet.DNSQuery {
 		out = append(out, mappingStates(base)...)
 	}
+	if sp.Type == packet.DNSResolve || sp.Type == packet.DNSQuery {
+		// the default-target path (no target named) against mappings that are no longer valid
+		d := base
+		d.BodyTarget = "absent"
+		out = append(out, mappingStates(d)...)
+		for _, how := range []string{"delete", "revoked"} {
+			c := d
+			c.Again = how
+			out = append(out, c)
+		}
+	}
 	switch sp.Type {
 	case packet.MappingGet, packet.MappingDelete, packet.SOCKS5TunnelRequestCmd, packet.TunnelTrafficReport:
 		// mappings one side of which is client 0 (server-listened / target-less): identity 0 is nobody's identity
 		for _, tg := range []string{"zero-listen", "zero-target"} {
 			c := base
 			c.Target = tg
+			out = append(out, c)
+		}
+	}
+	switch sp.Type {
+	case packet.DNSResolve, packet.DNSQuery, packet.SOCKS5TunnelRequestCmd, packet.TunnelTrafficReport, packet.MappingGet, packet.MappingList, packet.ConfigGet:
+		// permissions that derive from the relationship L->T: the same request twice, the relationship taken away in between
+		for _, how := range []string{"delete", "revoked", "expired", "inactive"} {
+			c := base
+			c.Again = how
 			out = append(out, c)
 		}
 	}
@@ -341,6 +361,9 @@ func genCell(t *rapid.T) Cell {
 	sp := specOf(c.Cmd)
 	if sp.Type == packet.SOCKS5TunnelRequestCmd || ((sp.Type == packet.DNSResolve || sp.Type == packet.DNSQuery) && !sp.Resp) {
 		c.BodyTarget = rapid.SampledFrom([]string{"", "absent", "T", "S", "L", "S"}).Draw(t, "bodyTarget")
+	}
+	if !sp.Resp {
+		c.Again = rapid.SampledFrom([]string{"", "", "", "", "delete", "revoked", "expired", "inactive"}).Draw(t, "again")
 	}
 	c.PrimeBy = rapid.SampledFrom([]string{"", "", "L", "T"}).Draw(t, "primeBy")
 	c.FixedID = rapid.Bool().Draw(t, "fixedID")
